@@ -171,7 +171,13 @@ func unmarshalEmbeddedFallbackNext(dec *jsontext.Decoder, va addressableValue, u
 	if len(f.index) > 0 {
 		v = v.fieldByIndex(f.index, true)
 	}
-	v = v.indirect(true)
+	if v.IsValid() {
+		v = v.indirect(true)
+	}
+	if !v.IsValid() {
+		// The fallback lives behind a nil embedded pointer that cannot be set.
+		return newUnmarshalErrorBeforeWithSkipping(dec, va.Type(), errNilField)
+	}
 
 	if v.Type() == jsontextValueType {
 		b, _ := reflect.TypeAssert[*jsontext.Value](v.Addr())
